@@ -240,7 +240,13 @@ def gen_remainder(ch, v):
     if cls == 'directory':
         cands = [''] + v.dirs
         d = cands[ch.draw(len(cands), 'dir_name')].encode('utf-8')
-        return d + [b'', b'/', b'/.', b'/index.html'][ch.draw(4, 'dir_tail')], cls
+        tail = ch.draw(6, 'dir_tail')
+        if tail < 4:
+            return d + [b'', b'/', b'/.', b'/index.html'][tail], cls
+        # exactly one level above the directory, spelled with a trailing
+        # slash: normalizes to '..' (no separator after it)
+        ups = b'../' * ((d.count(b'/') + 2) if d else 1)
+        return (d + b'/' if d else b'') + ups + (b'./' if tail == 5 else b''), cls
     if cls == 'outside_name':
         rel = v.out_rel[ch.draw(len(v.out_rel), 'target')]
         parts = [p for p in rel.split('/') if p != '..']
@@ -400,7 +406,11 @@ def gen_request(ch, cfg):
             r.cls = 'not_under_prefix'
     r.dec = dec
     style = ch.weighted([3, 1, 1], 'enc_style')
-    r.target = pct_encode(dec, style, ch.draw(3, 'enc_off'), bool(ch.draw(2, 'enc_upper')))
+    off, upper = ch.draw(3, 'enc_off'), bool(ch.draw(2, 'enc_upper'))
+    r.target = pct_encode(dec, style, off, upper)
+    # process-independent rendering for logs, plans and messages (the tree
+    # lives below a randomly named temp dir)
+    r.shown = pct_encode(TREE.show(dec), style, off, upper)
     if pct_decode(r.target.encode('ascii')) != dec:
         raise HarnessError('percent-encoding does not round-trip: %r' % (r.target,))
     # what the framework receives (both stacks): UTF-8 with replacement
@@ -784,7 +794,7 @@ def judge(ctx, cfg, req, resp, opens, fault, stack):
     sig = {'stack': stack, 'fault': fault or 'none', 'path': req.cls, 'range': req.range_cls}
     show = TREE.show
     what = '%s %s (decoded %r) on prefix %r -> %s%s, fallback %s' % (
-        req.method, show(req.target), show(req.path), cfg['prefix'], v.rel,
+        req.method, req.shown[:300], show(req.path)[:300], cfg['prefix'], v.rel,
         ' [%s]' % cfg['dir_spelling'] if cfg['dir_spelling'] != 'plain' else '', cfg['fb_kind'])
 
     # -- containment: every audited open is inside the directory or is the
@@ -889,8 +899,9 @@ def judge(ctx, cfg, req, resp, opens, fault, stack):
                     kind='disclosure' if d else 'status', **sig)
         return
     oid, kind, msg = first
-    if open_fault:
+    if open_fault and kind == 'status':
         oid = 'static.fault_status'
+        msg = 'after the injected %s: %s' % (fault, msg)
     elif not named:
         # only the fallback could have explained it
         d = disclosed(resp, v)
@@ -959,7 +970,7 @@ def run(ctx):
     ctx.plan = {
         'stack': stack, 'dir': v.rel, 'dir_spelling': cfg['dir_spelling'], 'prefix': cfg['prefix'],
         'downloadable': cfg['downloadable'], 'fallback': cfg['fb_kind'], 'strip_slash': cfg['strip'],
-        'method': req.method, 'target': show(req.target)[:300], 'path_class': req.cls,
+        'method': req.method, 'target': req.shown[:300], 'path_class': req.cls,
         'prefix_match': req.pm, 'range': req.range_val, 'range_class': req.range_cls,
         'if_modified_since': req.ims_val, 'ims_class': req.ims_cls, 'knobs': knobs,
     }
@@ -1015,7 +1026,7 @@ def run(ctx):
         ctx.probe('multi_read_body')
     fk = state['fault']
     root = TREE.root + '/'
-    ctx.event('req', stack, req.method, show(req.target)[:200], req.range_val, req.ims_val)
+    ctx.event('req', stack, req.method, req.shown, req.range_val, req.ims_val)
     ctx.event('io', ''.join(ctl.trace), 'fault', fk, 'opens',
               [p[len(root):] if p.startswith(root) else 'EXT:' + p for p in opens])
     ctx.event('resp', resp.status, resp.header('content-range'), resp.header('content-length'),
